@@ -143,6 +143,7 @@ def pairings(ctx, prog):
     doc(ctx)
     n_typed = 0
     pair_sets = {}
+    per_fn = {}
     for f in prog.fns:
         sy = None
         for i, t in f.calls():
@@ -185,7 +186,37 @@ def pairings(ctx, prog):
             kind = "score" if nm == "score_strings_internal" else ("cand" if nm == "has_common_substring_internal" else "equiv")
             ks = (A[2], B[2]) if A[1] != "other" else (B[2], A[2])
             pair_sets.setdefault((kind, d), set()).add(ks)
+            per_fn.setdefault(f.path, (f, set(), set()))
+            for v in (A, B):
+                per_fn[f.path][1 if v[1] == "self" else 2].add(v[2])
     ctx.floor(R, n_typed, 10, "typed block-hash pairings")
+    # index discipline: a function that pairs block hash k of self with block hash j of other touches no other indexed
+    # field (blockhashN / len_blockhashN, directly or through an accessor) of self / other
+    for path, (f, ks_self, ks_other) in per_fn.items():
+        if "compare_optimized_internal" in path:
+            continue  # handles all relations in one body: covered per arm by the typed pairings above
+        sy = Sym(f)
+        used = {1: set(), 2: set()}
+        exprs = []
+        for i, j, s_ in f.stmts(live_only=False):
+            if s_["s"] == "assign":
+                exprs.append(sy.rvalue(s_["rv"]))
+        for i, t in f.calls(live_only=False):
+            exprs.append(sy.call(t, i))
+        for e in exprs:
+            for x in walk(e):
+                if x[0] == "field" and re.fullmatch(r"(len_)?blockhash[12]", x[2]):
+                    w = who(x[1])
+                    if w in ("self", "other"):
+                        used[1 if w == "self" else 2].add(int(x[2][-1]))
+                elif x[0] == "call" and x[2]:
+                    k = accessor_k(prog, x[1])
+                    w = who(x[2][0])
+                    if k and w in ("self", "other"):
+                        used[1 if w == "self" else 2].add(k)
+        ok = used[1] <= ks_self and used[2] <= ks_other
+        ctx.ob(R, "%s touches only the block hashes it pairs (self: %s, other: %s)" % (f.short, sorted(ks_self), sorted(ks_other)), ok,
+               "indexed fields used - self: %s, other: %s" % (sorted(used[1]), sorted(used[2])), f.loc())
     # O4: pair-set agreement per relation (d = log(other) - log(self))
     want = {0: {(1, 1), (2, 2)}, 1: {(2, 1)}, -1: {(1, 2)}}
     for d, w in want.items():
@@ -259,6 +290,23 @@ def dispatchers(ctx, prog):
                     order_ok = (w0 == "self" or (w0 or "").startswith("local")) and w1 == "other"
                     ctx.ob(R, "%s: arm %s calls the %s variant with (self, other)" % (f.short, rel, suf), m.group(2) == suf.split("_")[1] and order_ok,
                            "calls %s(%s, %s)" % (c.split("::")[-1], w0, w1), f.loc(tt["sp"]))
+        # near arms produce only scorer / candidate results: no constant is returned there (except 100 for identical, NearEq)
+        if f.locals[0]["ty"] in ("u32", "bool"):
+            for rel in ("NearEq", "NearLt", "NearGt"):
+                tgt = arms.get(rel)
+                if tgt is None:
+                    continue
+                reach = f.reach_from(tgt, avoid={x for k, x in arms.items() if k != rel})
+                consts = []
+                for bb in reach:
+                    for s_ in f.blocks[bb]["stmts"]:
+                        if s_["s"] == "assign" and s_["lhs"]["l"] == 0 and not s_["lhs"]["p"]:
+                            cv = const_value(sy.rvalue(s_["rv"]))
+                            if cv is not None:
+                                consts.append(cv)
+                allowed = {100} if rel == "NearEq" and f.locals[0]["ty"] == "u32" else set()
+                ctx.ob(R, "%s: arm %s returns no constant result%s" % (f.short, rel, " other than 100 for identical hashes" if allowed else ""), set(consts) <= allowed,
+                       "constants returned in the arm: %s" % consts, f.loc())
         # NearEq of public compare entry points: equality test returning 100 before scoring
         if f.exported and f.locals[0]["ty"] == "u32" and f.path.endswith("::compare") or f.path.endswith("compare_optimized_internal"):
             tgt = arms.get("NearEq")
